@@ -2,17 +2,16 @@
 //! the server crate by a hook in logs/mod.rs). The real file is a background tokio task fed through
 //! a flume channel (`select!`, timers); it only runs under `Confirmation::NoWait`, which is a
 //! concurrency mode outside every claim (DESIGN §4). Reaching it in a harness is reported.
-use crate::streaming::batching::message_batch::RetainedMessageBatch;
+use super::super::super::batching::message_batch::RetainedMessageBatch;
 use iggy::utils::duration::IggyDuration;
-use iggy::verif_model::fs::File;
 use std::sync::{atomic::AtomicU64, Arc};
 
 #[derive(Debug)]
 pub struct PersisterTask;
 
 impl PersisterTask {
-    pub fn new(
-        _file: File,
+    pub fn new<F>(
+        _file: F,
         _file_path: String,
         _fsync: bool,
         _log_file_size: Arc<AtomicU64>,
@@ -21,8 +20,10 @@ impl PersisterTask {
     ) -> Self {
         panic!("model: Confirmation::NoWait (background persister task) is outside the verified configuration");
     }
-    pub async fn persist(&self, _batch: RetainedMessageBatch) {
+    pub fn persist(&self, _batch: RetainedMessageBatch) -> core::future::Ready<()> {
         panic!("model: background persister task is outside the verified configuration");
     }
-    pub async fn shutdown(self) {}
+    pub fn shutdown(self) -> core::future::Ready<()> {
+        core::future::ready(())
+    }
 }
